@@ -357,6 +357,9 @@ func newImpl(kind string) impl {
 	return nil
 }
 
+// Light halves the replay budget (used when another check shares the run).
+var Light bool
+
 // Kinds are the implementations every behaviour is replayed on.
 var Kinds = []string{"volatile-inproc", "volatile-hop", "durable", "state-volatile", "state-durable"}
 
@@ -471,20 +474,34 @@ func Generate(c *core.Ctx, rng *rand.Rand) (walks [][]json.RawMessage, keys []st
 		keep = 0.5
 	}
 	init := `{"st":{"r1":{"k1":{"a":0,"d":0},"k2":{"a":0,"d":0}},"r2":{"k1":{"a":0,"d":0},"k2":{"a":0,"d":0}},"r3":{"k1":{"a":0,"d":0},"k2":{"a":0,"d":0}}},"msgs":[]}`
-	w, covered, unreach := g.Walks(init, 40, rng, keep)
+	maxWalks := 0
+	if c.Quick() {
+		maxWalks = 500
+		if Light {
+			maxWalks = 150
+		}
+	}
+	w, covered, unreach := g.WalksN(init, 40, rng, keep, maxWalks)
 	if unreach > 0 || covered == 0 {
 		core.Fatalf("crdt graph: %d edges unreachable from init, %d covered (state key mismatch?)", unreach, covered)
 	}
 	core.Logf("crdt: %d edges exported, %d covered by %d walks", g.Edges, covered, len(w))
 	c.Add("edges_exported", int64(g.Edges))
 	c.Add("edges_covered_by_all_walks", int64(covered))
-	if max := 500; c.Quick() && len(w) > max {
+	max := 500
+	if Light {
+		max = 150
+	}
+	if c.Quick() && len(w) > max {
 		rng.Shuffle(len(w), func(i, j int) { w[i], w[j] = w[j], w[i] })
 		w = w[:max]
 	}
 	walks = append(walks, w...)
 	// 3. long simulated behaviours with more time values, ops and payloads
 	num, depth := 150, 14
+	if Light {
+		num = 50
+	}
 	if !c.Quick() {
 		num, depth = 2000, 20
 	}
@@ -505,9 +522,16 @@ func Generate(c *core.Ctx, rng *rand.Rand) (walks [][]json.RawMessage, keys []st
 	return
 }
 
-// Run is the C04 check (also the delta half of C13, which shares the traces).
+// Run is the C04 check.
 func Run(c *core.Ctx) {
 	c.Level = "model_checking"
+	Explore(c, "replicated map diverges from the LWW join / delta contract", false)
+	c.Finish()
+}
+
+// Explore is the body shared by C04 and the delta half of C13 (the same traces carry the delta every Merge returned).
+func Explore(c *core.Ctx, what string, light bool) int64 {
+	Light = light
 	rng := rand.New(rand.NewSource(c.Seed))
 	walks, keys, keysTLA, maxTime := Generate(c, rng)
 	var traces []*core.Trace
@@ -544,14 +568,14 @@ func Run(c *core.Ctx) {
 		c.Sample(map[string]any{"label": t.Label, "events_head": head(t, 5)})
 	}
 	rej := c.ValidateTraces(traces, core.ValidateOpts{Module: "Crdt_Trace", Cfg: traceCfg(keysTLA, maxTime), ChunkSize: 3000})
-	c.ReportRejections(rej, "replicated map diverges from the LWW join / delta contract")
+	c.ReportRejections(rej, what)
 	c.Set("distinct_nontrivial", nontrivial)
 	c.Set("rule", "behaviours are TLC-generated (all edges of a small exported state graph as covering walks + -simulate behaviours); one is non-trivial when it delivers at least one payload to a replica that already holds a different value for one of its keys or delivers some payload twice; each behaviour is replayed on 2 (quick) or all 5 (thorough) implementations: Volatile in-process, Volatile with codec hop, Durable (disk + memory), State volatile and State durable with Encode/DecodeState on every hop")
 	c.Set("implementations", Kinds)
 	c.Assume = append(c.Assume, "crdt.Now is driven by the model's clock (single reading per Add/Del; the op payload of Notify gets its own reading)",
 		"payload bytes of entries are not compared (the statement speaks of entries, times and activeness)",
 		"timestamps 1..3, 2 keys, 3 replicas; unbounded timestamps are covered by the TLAPS lemmas in CrdtAlgebra.tla when proved")
-	c.Finish()
+	return nontrivial
 }
 
 func head(t *core.Trace, n int) []json.RawMessage {
